@@ -75,12 +75,27 @@ structure MonRx (m : Mon) (s : St) : Prop where
   seen : m.rxSeen = true → s.readErr = true
   none : s.readErr = true → s.outCalls = []
 
+/-- The id named by a cancel notification that was read but whose A1 has not run yet (the reader
+works on one request at a time: such a request is the newest one). -/
+def pendCancel (s : St) : Option Nat :=
+  match s.cores.getLast?, s.metas.getLast? with
+  | some k, some mt => if k.pc = .a1 then mt.cancelTarget else none
+  | _, _ => none
+
+/-- Cancellation part of the relation: every `Cancel(id)` goroutine of the model (`s.cancels`) and
+the cancel notification still before its A1 were named by a `read cancel` the monitor booked and has
+not consumed yet (as multisets); the monitor has seen no unasked Cancel. -/
+structure MonCancel (m : Mon) (s : St) : Prop where
+  asked : ∀ id, s.cancels.count id + (if pendCancel s = some id then 1 else 0) ≤ m.cancelAsked.count id
+  un : m.unasked = []
+
 /-- **MonRel**: the invariant between the monitor state and the model state. -/
 structure MonRel (m : Mon) (s : St) : Prop where
   prev : PrevOK m.prev s
   calls : MonCalls m s
   reqs : MonReqs m s
   rx : MonRx m s
+  cancel : MonCancel m s
 
 /-- The labels that act on one incoming request (handled one by one in `MonReqsA/B.lean`); every
 other label is handled by `monreqs_other` (`MonReqsC.lean`). -/
@@ -102,6 +117,8 @@ theorem monReqs_init : MonReqs {} {} :=
 
 theorem monRx_init : MonRx {} {} := ⟨fun h => by simp at h, fun h => by simp at h⟩
 
-theorem monRel_init : MonRel {} {} := ⟨prevOK_init, monCalls_init, monReqs_init, monRx_init⟩
+theorem monCancel_init : MonCancel {} {} := ⟨fun id => by simp [pendCancel], rfl⟩
+
+theorem monRel_init : MonRel {} {} := ⟨prevOK_init, monCalls_init, monReqs_init, monRx_init, monCancel_init⟩
 
 end Conn
